@@ -162,13 +162,14 @@ def __parse_unit_string_to_list(unit_string: str) -> List[Union[str, List]]:
     unit_with_exponent_pattern = re.compile(r"[a-zA-Z]+(\^-?[0-9]+|{})".format(fraction))
     operator_pattern = re.compile(r"[/*]")
 
-    # Check if the input only consists of valid token strings
-    if not re.fullmatch(r"({})+".format(token_pattern.pattern), unit_string):
+    # Check if the input only consists of valid token strings: the tokens found have to cover
+    # all of it (one pass; matching "(token)+" can take exponential time on invalid input)
+    tokens = [result.group() for result in token_pattern.finditer(unit_string)]
+    if not tokens or "".join(tokens) != unit_string:
         raise ValueError("\"{}\" is not a valid unit".format(unit_string))
 
     # For every token found, process it and append it to the list
-    for result in token_pattern.finditer(unit_string):
-        token = result.group()
+    for token in tokens:
         if bracket_enclosed_expression_pattern.fullmatch(token):
             # If the token is a bracket enclosed expression, recursively parse the content of
             # that bracket and append it to the tokens list as a list
